@@ -246,7 +246,7 @@ Lemma step_inv s m sc o :
   let '(m1, v) := mon m o out in
   excused v (excuses (scope sc o)) = true /\ Inv s1 m1 (scope sc o).
 Proof.
-  intros I. destruct o as [h|[r|]|p|k|c|p|ks]; simpl.
+  intros I. destruct o as [h|[r|]|p|k|c|p|ks|h ks]; simpl.
   - (* Request *)
     destruct (find_hash h (reqs s)) as [c|] eqn:E; simpl.
     + apply find_hash_In in E. apply (inv_reqs _ _ _ I) in E. apply mem_pair_In in E.
@@ -325,6 +325,29 @@ Proof.
       pose proof (burst_ctr_ge ks (ctr s)) as Hge.
       destruct I as [I1 I2 I3 I4 I5 I6 I7 I8]. constructor; simpl; auto.
       eapply desc_lt_weaken; [|exact I4]. lia.
+  - (* DupBurst *)
+    destruct (find_hash h (reqs s)) as [c|] eqn:E; simpl.
+    + (* withheld request + burst *)
+      apply find_hash_In in E. apply (inv_reqs _ _ _ I) in E. apply mem_pair_In in E.
+      rewrite E. simpl.
+      destruct (burst_ok ks (ctr s) (m_last m) (m_seen m)) as [sn [Hm Hsn]].
+      * rewrite (inv_last _ _ _ I). lia.
+      * exact (inv_seen _ _ _ I).
+      * rewrite (inv_last _ _ _ I) in *. rewrite Hm. simpl. split; [reflexivity|].
+        pose proof (burst_ctr_ge ks (ctr s)) as Hge.
+        destruct I as [I1 I2 I3 I4 I5 I6 I7 I8]. constructor; simpl; auto.
+        eapply desc_lt_weaken; [|exact I4]. lia.
+    + (* the request is sent, then the burst *)
+      rewrite (fresh_ok s m sc I). rewrite !N.eqb_refl. simpl.
+      destruct (burst_ok ks (N.succ (ctr s)) (N.succ (ctr s)) (N.succ (ctr s) :: m_seen m)) as [sn [Hm Hsn]].
+      * lia.
+      * intros x [<-|Hx]; [lia | pose proof (inv_seen _ _ _ I _ Hx); lia].
+      * rewrite Hm. simpl. split; [reflexivity|].
+        pose proof (burst_ctr_ge ks (N.succ (ctr s))) as Hge.
+        destruct I as [I1 I2 I3 I4 I5 I6 I7 I8]. constructor; simpl; auto.
+        -- intros c' h' Hin. apply add_req_sub in Hin.
+           destruct Hin as [Heq|Hin]; [left; symmetry; exact Heq | right; auto].
+        -- eapply desc_lt_weaken; [|exact I4]. lia.
 Qed.
 
 Theorem run_accepted_from s m sc ops :
@@ -369,7 +392,7 @@ Lemma step_written s o :
   Forall (fun x => (ctr s < x <= ctr s1)%N) (written_of out) /\ (ctr s <= ctr s1)%N.
 Proof.
   assert (H1 : forall c : N, StronglySorted N.lt [c]) by (intros c; constructor; constructor).
-  destruct o as [h|[r|]|p|k|c|p|ks]; simpl.
+  destruct o as [h|[r|]|p|k|c|p|ks|h ks]; simpl.
   - destruct (find_hash h (reqs s)); simpl.
     + repeat split; try constructor; lia.
     + repeat split; [apply H1 | constructor; [lia | constructor] | lia].
@@ -383,6 +406,13 @@ Proof.
   - destruct (lru_put (N.succ (ctr s)) p (lru s) (space s)). simpl.
     repeat split; [apply H1 | constructor; [lia | constructor] | lia].
   - destruct (burst_written ks (ctr s)) as [Hs Hf]. repeat split; [exact Hs | exact Hf | apply burst_ctr_ge].
+  - destruct (find_hash h (reqs s)); simpl.
+    + destruct (burst_written ks (ctr s)) as [Hs Hf]. repeat split; [exact Hs | exact Hf | apply burst_ctr_ge].
+    + destruct (burst_written ks (N.succ (ctr s))) as [Hs Hf].
+      pose proof (burst_ctr_ge ks (N.succ (ctr s))) as Hge. repeat split.
+      * constructor; [exact Hs|]. eapply Forall_impl; [|exact Hf]. simpl. intros a Ha. lia.
+      * constructor; [lia|]. eapply Forall_impl; [|exact Hf]. simpl. intros a Ha. lia.
+      * lia.
 Qed.
 
 Lemma sorted_app (l1 l2 : list N) b :
@@ -462,12 +492,13 @@ Lemma step_bounded s o :
   (length (reqs s) <= S request_cache_limit)%nat ->
   (length (reqs (fst (step s o))) <= S request_cache_limit)%nat.
 Proof.
-  intros H. destruct o as [h|[r|]|p|k|c|p|ks]; simpl; try exact H.
+  intros H. destruct o as [h|[r|]|p|k|c|p|ks|h ks]; simpl; try exact H.
   - destruct (find_hash h (reqs s)); simpl; [exact H | apply add_req_length; exact H].
   - pose proof (length_remove_N_le r (reqs s)). lia.
   - destruct (lru_put (N.succ (ctr s)) p (lru s) (space s)). simpl. exact H.
   - destruct (lru_get c (lru s)). simpl. exact H.
   - destruct (lru_put (N.succ (ctr s)) p (lru s) (space s)). simpl. exact H.
+  - destruct (find_hash h (reqs s)); simpl; [exact H | apply add_req_length; exact H].
 Qed.
 
 Theorem reqs_bounded ops : (length (reqs (fst (run init ops))) <= S request_cache_limit)%nat.
@@ -513,4 +544,37 @@ Proof.
   destruct (burst_len ks ks' (ctr s) P) as [L1 L2]. simpl. split.
   - rewrite H1. exact L1.
   - destruct (fst (run s (map Other ks'))) as [c r l sp]. simpl in *. subst. rewrite L2. reflexivity.
+Qed.
+
+(* ---------- a withheld request overlapped by a burst ---------- *)
+(* While an identical request is unanswered the request takes no counter and changes nothing:
+   wherever it falls among the calls of the burst, state and written datagrams are those of
+   the burst alone, and the caller is handed the counter of the unanswered request. *)
+Theorem dupburst_withheld s h ks c :
+  find_hash h (reqs s) = Some c ->
+  step s (Request h) = (s, [RetCtr c]) /\
+  step s (DupBurst h ks) = (fst (step s (Burst ks)), RetCtr c :: snd (step s (Burst ks))).
+Proof. intros E. simpl. rewrite E. split; reflexivity. Qed.
+
+Lemma run_others_reqs l s : reqs (fst (run s (map Other l))) = reqs s.
+Proof. destruct (run_others l s) as [_ [_ [H _]]]. exact H. Qed.
+
+(* the request may fall after any prefix of (any order of) the overlapping calls *)
+Lemma run_others_app l1 l2 : forall s,
+  fst (run (fst (run s (map Other l1))) (map Other l2)) = fst (run s (map Other (l1 ++ l2))).
+Proof.
+  induction l1 as [|k l1 IH]; intros s; simpl; [reflexivity|].
+  specialize (IH {| ctr := N.succ (ctr s); reqs := reqs s; lru := lru s; space := space s |}).
+  destruct (run {| ctr := N.succ (ctr s); reqs := reqs s; lru := lru s; space := space s |} (map Other l1)) as [sa ta].
+  destruct (run {| ctr := N.succ (ctr s); reqs := reqs s; lru := lru s; space := space s |} (map Other (l1 ++ l2))) as [sb tb].
+  simpl in *. exact IH.
+Qed.
+
+Theorem dupburst_any_position s h c ks1 ks2 :
+  find_hash h (reqs s) = Some c ->
+  step (fst (run s (map Other ks1))) (Request h) = (fst (run s (map Other ks1)), [RetCtr c]) /\
+  fst (run (fst (run s (map Other ks1))) (map Other ks2)) = fst (run s (map Other (ks1 ++ ks2))).
+Proof.
+  intros E. split; [|apply run_others_app].
+  simpl. rewrite run_others_reqs, E. reflexivity.
 Qed.
